@@ -745,18 +745,27 @@ func c11WorkerCount(c *Ctx) {
 		}
 		n++
 		var loop *ast.ForStmt
+		var rloop *ast.RangeStmt
 		inGo := false
 		for cur := pm[ast.Node(call)]; cur != nil; cur = pm[cur] {
 			switch x := cur.(type) {
 			case *ast.GoStmt:
 				inGo = true
 			case *ast.ForStmt:
-				if loop == nil {
+				if loop == nil && rloop == nil {
 					loop = x
+				}
+			case *ast.RangeStmt:
+				if loop == nil && rloop == nil {
+					rloop = x
 				}
 			}
 		}
 		ok2, detail := false, "scanWorker is not started from a counting loop"
+		// `for range workers` / `for i := range workers` (range over an integer) runs exactly `workers` times
+		if rloop != nil && isObj(info, rloop.X, workersP) {
+			ok2, detail = true, "range over the worker count"
+		}
 		if loop != nil && loop.Init != nil && loop.Cond != nil && loop.Post != nil {
 			init, _ := loop.Init.(*ast.AssignStmt)
 			post, _ := loop.Post.(*ast.IncDecStmt)
